@@ -72,14 +72,14 @@ def relayout(arr, layout):
 def mk_array(cells, shape=None, dtype="float", maskform="auto", payload=0):
     """cells: list of Fraction|int|float|None (None = missing).  maskform for arrays without missing cells:
     'nomask' | 'false' (explicit all-False mask).  payload: number stored beneath missing cells."""
-    np_dtype = {"float": numpy.float64, "int": numpy.int64, "float32": numpy.float32, "int32": numpy.int32, "uint": numpy.uint64}[dtype]
+    np_dtype = {"float": numpy.float64, "int": numpy.int64, "float32": numpy.float32, "int32": numpy.int32, "uint": numpy.uint64, "uint8": numpy.uint8, "uint16": numpy.uint16}[dtype]
     vals = []
     for c in cells:
         if c is None:
             v = payload
         else:
             v = c
-        if dtype.startswith("int") or dtype == "uint":
+        if dtype.startswith("int") or dtype.startswith("uint"):
             vals.append(int(v) if v == v else 0)
         else:
             vals.append(float(v))
